@@ -12,6 +12,7 @@ EXPLANATION = (
     "reuse id/style/classes copied onto the instance; (4) <specs>: output and bbox contribution are control-dependent "
     "on !in_specs, SpecsElement returns an empty list, and in_specs=true/false is paired on every exit. "
     "Undecided: equality with the hand-inlined document and placement arithmetic (two executions / numeric)."
+    " Also: existing transform precedes the placing translate() on both placement paths; use/reuse size = target size, width first (A17)."
 )
 TRUSTED = ["HashMap::insert returns None exactly for a new key"]
 ASSUMPTIONS = []
